@@ -527,4 +527,164 @@ Proof.
            ++ eauto 6.
 Qed.
 
+
+(* ------------------------------------------------------------------ delete *)
+
+Definition collapse (cs' : list node) (nn : node) : res (bool * node) :=
+  let n' := Full cs' newflag in
+  if negb (is_empty nn) then Ok (true, n')
+  else
+    match single_child cs' 0 None with
+    | Some (inl pos) =>
+      let only := nth pos cs' Empty in
+      if negb (Nat.eqb pos 16) then
+        rbind (match only with Ref h => resolve_hash d h | _ => Ok only end) (fun cnode =>
+          match cnode with
+          | Short ck cv _ => Ok (true, Short (pos :: ck) cv newflag)
+          | _ => Ok (true, Short [pos] only newflag)
+          end)
+      else Ok (true, Short [pos] only newflag)
+    | _ => Ok (true, n')
+    end.
+
+Lemma delete_full_eq f cs fl k0 kt :
+  delete (S f) d (Full cs fl) (k0 :: kt) =
+  match nth_error cs k0 with
+  | None => Crash
+  | Some c =>
+    rbind (delete f d c kt) (fun r =>
+      if fst r then collapse (set_nth k0 (snd r) cs) (snd r) else Ok (false, Full cs fl))
+  end.
+Proof. reflexivity. Qed.
+
+Lemma delete_short_eq f nk c fl k :
+  delete (S f) d (Short nk c fl) k =
+  let ml := prefix_len k nk in
+  if Nat.ltb ml (length nk) then Ok (false, Short nk c fl)
+  else if Nat.eqb ml (length k) then Ok (true, Empty)
+  else
+    rbind (delete f d c (skipn (length nk) k)) (fun r =>
+      if fst r then
+        match snd r with
+        | Short ck cc _ => Ok (true, Short (nk ++ ck) cc newflag)
+        | child => Ok (true, Short nk child newflag)
+        end
+      else Ok (false, Short nk c fl)).
+Proof. reflexivity. Qed.
+
+Definition del_spec (n n' : node) (k : key) : Prop :=
+  forall k' w, has n' k' w <-> (k' <> k /\ has n k' w).
+
+Lemma del_spec_absent n k : (forall w, ~ has n k w) -> del_spec n n k.
+Proof.
+  intros Hno k' w. split; [|tauto]. intros Hh. split; auto. intros ->. eapply Hno; eauto.
+Qed.
+
+Definition slot_ok (i : nat) (c : node) : Prop :=
+  (i < 16 -> canon c) /\ (i = 16 -> c = Empty \/ exists v, v <> [] /\ c = Value v).
+
+Lemma full_del_spec cs fl fl' k0 kt c nn :
+  nth_error cs k0 = Some c -> del_spec c nn kt ->
+  del_spec (Full cs fl) (Full (set_nth k0 nn cs) fl') (k0 :: kt).
+Proof.
+  intros Hn Hs k' w. pose proof (nth_error_some_lt _ _ _ Hn) as Hlt. rewrite !has_full. split.
+  - intros (i & r & c' & -> & Hc' & Hr). destruct (Nat.eq_dec i k0) as [->|Hd].
+    + rewrite nth_error_set_nth_eq in Hc' by auto. inversion Hc'; subst.
+      apply Hs in Hr as [Hne Hr]. split; [congruence|eauto 6].
+    + rewrite nth_error_set_nth_neq in Hc' by auto. split; [congruence|eauto 6].
+  - intros [Hne (i & r & c' & -> & Hc' & Hr)]. destruct (Nat.eq_dec i k0) as [->|Hd].
+    + rewrite Hn in Hc'. inversion Hc'; subst. exists k0, r, nn.
+      rewrite nth_error_set_nth_eq by auto. repeat split; auto. apply Hs. split; auto. congruence.
+    + exists i, r, c'. rewrite nth_error_set_nth_neq by auto. auto.
+Qed.
+
+Lemma count_one_others cs : forall p c,
+  count_ne cs = 1 -> nth_error cs p = Some c -> c <> Empty ->
+  forall i c', i <> p -> nth_error cs i = Some c' -> c' = Empty.
+Proof.
+  induction cs as [|h t IH]; intros p c Hc Hp Hne i c' Hi Hn; [destruct p; discriminate|].
+  rewrite count_ne_cons in Hc. destruct p as [|p]; cbn in Hp.
+  - inversion Hp; subst h. apply is_empty_false in Hne. rewrite Hne in Hc.
+    destruct i as [|i]; [congruence|]. cbn in Hn.
+    destruct (is_empty c') eqn:E; [apply is_empty_true; auto|].
+    exfalso. assert (0 < count_ne t); [|lia].
+    clear - Hn E. revert i Hn. induction t as [|a t IHt]; intros [|i] Hn; cbn in Hn; try discriminate.
+    + inversion Hn; subst. rewrite count_ne_cons, E. lia.
+    + rewrite count_ne_cons. specialize (IHt _ Hn). lia.
+  - destruct i as [|i]; cbn in Hn.
+    + inversion Hn; subst h. destruct (is_empty c') eqn:E; [apply is_empty_true; auto|].
+      exfalso. assert (0 < count_ne t); [|lia].
+      clear - Hp Hne. revert p Hp. induction t as [|a t IHt]; intros [|p] Hp; cbn in Hp; try discriminate.
+      * inversion Hp; subst. rewrite count_ne_cons. apply is_empty_false in Hne. rewrite Hne. lia.
+      * rewrite count_ne_cons. specialize (IHt _ Hp). lia.
+    + destruct (is_empty h) eqn:E.
+      * eapply (IH p c); eauto.
+      * exfalso. assert (0 < count_ne t); [|lia].
+        clear - Hp Hne. revert p Hp. induction t as [|a t IHt]; intros [|p] Hp; cbn in Hp; try discriminate.
+        -- inversion Hp; subst. rewrite count_ne_cons. apply is_empty_false in Hne. rewrite Hne. lia.
+        -- rewrite count_ne_cons. specialize (IHt _ Hp). lia.
+Qed.
+
+Lemma has_single cs fl p only k' w :
+  count_ne cs = 1 -> nth_error cs p = Some only -> only <> Empty ->
+  (has (Full cs fl) k' w <-> exists r, k' = p :: r /\ has only r w).
+Proof.
+  intros Hc Hp Hne. rewrite has_full. split.
+  - intros (i & r & c & -> & Hn & Hr). destruct (Nat.eq_dec i p) as [->|Hd].
+    + rewrite Hp in Hn. inversion Hn; subst. eauto.
+    + rewrite (count_one_others cs p only Hc Hp Hne i c Hd Hn) in Hr. inversion Hr.
+  - intros (r & -> & Hr). eauto 6.
+Qed.
+
+(** a canonical non-empty subtrie is a short or a full node *)
+Lemma canon_shape n : canon n -> n <> Empty ->
+  (exists p v f, n = Short (p ++ [16]) (Value v) f /\ nibs p /\ v <> []) \/
+  (exists k cs g f, n = Short k (Full cs g) f /\ k <> [] /\ nibs k /\ canon (Full cs g)) \/
+  (exists cs f, n = Full cs f).
+Proof.
+  intros Hc Hne. destruct Hc; [congruence| | |]; eauto 12.
+Qed.
+
+Lemma collapse_spec cs fl k0 c nn :
+  canon (Full cs fl) -> k0 <= 16 -> nth_error cs k0 = Some c -> slot_ok k0 nn ->
+  exists n', collapse (set_nth k0 nn cs) nn = Ok (true, n') /\ canon n' /\ n' <> Empty /\
+             (forall k' w, has n' k' w <-> has (Full (set_nth k0 nn cs) newflag) k' w).
+Proof.
+  intros Hc Hk0 Hn [Hs1 Hs2]. inversion Hc as [| | |cs0 f0 Hl Hch H16 Hcnt]; subst.
+  set (cs' := set_nth k0 nn cs).
+  assert (Hl' : length cs' = 17) by (unfold cs'; rewrite set_nth_length; auto).
+  assert (Hch' : forall i c', nth_error cs' i = Some c' -> i < 16 -> canon c').
+  { intros i c' Hc' Hi. unfold cs' in Hc'. destruct (Nat.eq_dec i k0) as [->|Hd].
+    - rewrite nth_error_set_nth_eq in Hc' by lia. inversion Hc'; subst; auto.
+    - rewrite nth_error_set_nth_neq in Hc' by lia. eauto. }
+  assert (H16' : forall c', nth_error cs' 16 = Some c' -> c' = Empty \/ exists v, v <> [] /\ c' = Value v).
+  { intros c' Hc'. unfold cs' in Hc'. destruct (Nat.eq_dec 16 k0) as [<-|Hd].
+    - rewrite nth_error_set_nth_eq in Hc' by lia. inversion Hc'; subst; auto.
+    - rewrite nth_error_set_nth_neq in Hc' by lia. eauto. }
+  pose proof (count_ne_set_nth cs k0 c nn Hn) as C. fold cs' in C.
+  unfold collapse. fold cs'. destruct (is_empty nn) eqn:En; cbn [negb].
+  2:{ exists (Full cs' newflag). split; auto. split; [|split; [discriminate|tauto]].
+      constructor; auto. destruct (is_empty c); lia. }
+  assert (C1 : 1 <= count_ne cs') by (destruct (is_empty c); lia).
+  pose proof (single_child_none cs' 0) as Hsc.
+  destruct (single_child cs' 0 None) as [[pos|u]|].
+  - destruct Hsc as (Hone & _ & only & Hp & Hne). rewrite Nat.sub_0_r in Hp.
+    assert (Hnth : nth pos cs' Empty = only) by (apply nth_error_nth; auto).
+    rewrite Hnth. pose proof (nth_error_some_lt _ _ _ Hp) as Hpos. rewrite Hl' in Hpos.
+    destruct (Nat.eqb_spec pos 16) as [->|Hp16]; cbn [negb].
+    + destruct (H16' _ Hp) as [->|(v & Hv & ->)]; [congruence|].
+      exists (Short [16] (Value v) newflag). split; auto.
+      split; [apply (CLeaf [] v); auto; constructor|]. split; [discriminate|].
+      intros k' w. rewrite (has_single cs' newflag 16 (Value v)) by auto.
+      rewrite has_short. cbn [app]. tauto.
+    + assert (Hlt : pos < 16) by lia. pose proof (Hch' _ _ Hp Hlt) as Hco.
+      destruct (canon_shape _ Hco Hne) as [(p & v & f & -> & Hnp & Hv)|[(k & cs1 & g & f & -> & Hk & Hnk & Hcf)|(cs1 & f & ->)]];
+        cbn [rbind].
+      * exists (Short (pos :: p ++ [16]) (Value v) newflag). split; auto.
+        split; [apply (CLeaf (pos :: p)); auto; constructor; auto|]. split; [discriminate|].
+        intros k' w. rewrite (has_single cs' newflag pos _ k' w Hone Hp Hne). rewrite has_short.
+        split.
+        -- intros (r & -> & Hr). exists (pos :: r). split; auto... 
+Abort.
+
 End WithDb.
